@@ -737,6 +737,11 @@ func DefaultIntrinsics() map[string]externalFn {
 		}
 		return nil
 	}
+	m["k8s.io/apimachinery/pkg/util/uuid.NewUUID"] = func(fr *frame, a []value) value {
+		px := fr.i.px
+		px.uuidN++
+		return fmt.Sprintf("verif-uuid-%d", px.uuidN)
+	}
 	m["runtime.NumCPU"] = func(fr *frame, a []value) value { return 16 }
 	m["runtime.GOMAXPROCS"] = func(fr *frame, a []value) value { return 16 }
 	m["os.Getenv"] = func(fr *frame, a []value) value { return "" }
